@@ -457,6 +457,12 @@ pub fn gen_bundle(rng: &mut Rng, p: &GenParams) -> ABundle {
 
     let mut b = ABundle { spends: d.spends, spend_term: Sx::nil(), outer_ext: Sx::nil(), tags };
 
+    // spends are built parents-first; the listed order is free (a child may precede its parent)
+    if b.spends.len() > 1 && rng.chance(1, 4) {
+        rng.shuffle(&mut b.spends);
+        b.tags.push("listed-order-shuffled".into());
+    }
+
     // harmless variations the rules allow
     if rng.chance(1, 10) {
         b.outer_ext = Sx::atom(b"ext");
